@@ -13,6 +13,8 @@ spec: {"service_module", "client", "transport": "grpc"|"grpc_asyncio"|"rest" (re
        "script": ["UNAVAILABLE", "OK", ...]  (one entry per attempt; after the script the server answers "after"),
        "after": "OK"|code, "jitter": "max"|"min"|0.5, "retry": absent | "none" | {initial, maximum, multiplier, codes, deadline},
        "timeout": absent | null | number, "max_attempts_guard": 60}
+spec (inspection, no call made): {"inspect": true, "service_module", "client", "transport", "methods": [python names]}
+       -> {"ok", "installed": {method: {"retry": None | {cls, initial, maximum, multiplier, deadline, accepts}, "timeout"}}}
 stdout (last line): [{"ok", "error", "attempts": [{"time_remaining", "vnow"}], "sleeps": [...], "uniform": [[a,b]...]}]"""
 import asyncio, datetime, json, sys, time, types, traceback
 from gv.impl import drivelib as D
@@ -157,6 +159,37 @@ def run_one(spec, gs, pkg, clock, seen):
     return getattr(client, spec["method"])(request=req, **kw)
 
 
+def inspect_defaults(pkg, spec, gs):
+    """The defaults INSTALLED on a live transport: for each method the _GapicCallable found in transport._wrapped_methods:
+    its default Retry (initial, maximum, multiplier, overall timeout/deadline, and which status codes its predicate accepts,
+    probed with the exception api_core builds for each code) and its default timeout."""
+    import grpc
+    from google.api_core import exceptions as core_exceptions
+
+    def read(client):
+        tr = client.transport
+        out = {}
+        for m in spec["methods"]:
+            w = tr._wrapped_methods[getattr(tr, m)]
+            r = w._retry
+            row = {"timeout": None if w._timeout is None else repr(float(w._timeout)) if isinstance(w._timeout, (int, float)) else "<%s>" % type(w._timeout).__name__,
+                   "retry": None}
+            if r is not None:
+                codes = [c for c in sorted(grpc.StatusCode, key=lambda c: c.value[0]) if c.name != "OK"]
+                row["retry"] = {"cls": type(r).__module__ + "." + type(r).__name__,
+                                "initial": repr(float(r._initial)), "maximum": repr(float(r._maximum)), "multiplier": repr(float(r._multiplier)),
+                                "deadline": None if r._timeout is None else repr(float(r._timeout)),
+                                "accepts": [c.name for c in codes if r._predicate(core_exceptions.from_grpc_status(c, "probe"))]}
+            out[m] = row
+        return out
+
+    if spec["transport"] == "grpc_asyncio":
+        async def go():
+            return read(make_client(pkg, spec, gs.target, []))
+        return asyncio.run(go())
+    return read(make_client(pkg, spec, gs.target if spec["transport"] != "rest" else gs.http_host, []))
+
+
 def main():
     payload = json.load(sys.stdin)
     sys.path.insert(0, payload["root"])
@@ -165,6 +198,12 @@ def main():
     gs.http_host = hs.host
     results = []
     for spec in payload["calls"]:
+        if spec.get("inspect"):
+            try:
+                results.append({"ok": True, "installed": inspect_defaults(payload["package"], spec, gs)})
+            except Exception as e:  # noqa
+                results.append({"ok": False, "error": D.exc_info(e), "traceback": traceback.format_exc()[-800:]})
+            continue
         clock = Clock(spec.get("jitter", "max"))
         replies = [({"messages": [""]} if c == "OK" else {"code": c}) for c in spec["script"]]
         gs.set_script({spec["path"]: replies})
